@@ -241,8 +241,33 @@ def _joined(parts: List[ast.expr], at: ast.expr) -> ast.expr:
 class _Expr(ast.NodeTransformer):
     """E1-E3, bottom-up."""
 
-    def __init__(self) -> None:
+    def __init__(self, tables: Optional[Dict[str, ast.Dict]] = None, local_names: Optional[Set[str]] = None) -> None:
         self.changed = False
+        self.tables = tables or {}
+        self.local_names = local_names or set()
+
+    @staticmethod
+    def _pure_entry(v: ast.expr) -> bool:
+        """A table entry that can be written where it is looked up: a constant, a name, or a getter built from constants."""
+        if isinstance(v, ast.Constant) or _simple(v):
+            return True
+        if isinstance(v, ast.Call) and not v.keywords and all(isinstance(a, ast.Constant) for a in v.args):
+            f = v.func
+            nm = f.attr if isinstance(f, ast.Attribute) and isinstance(f.value, ast.Name) and f.value.id == "operator" else (f.id if isinstance(f, ast.Name) else None)
+            return nm in ("attrgetter", "itemgetter", "methodcaller")
+        return False
+
+    def visit_Subscript(self, node: ast.Subscript) -> ast.AST:
+        self.generic_visit(node)
+        # E13 `TABLE["key"]` with a literal key of a module-level table that nothing writes to is the entry
+        if (isinstance(node.ctx, ast.Load) and isinstance(node.value, ast.Name) and node.value.id in self.tables and node.value.id not in self.local_names
+                and isinstance(node.slice, ast.Constant)):
+            t = self.tables[node.value.id]
+            for k_, v_ in zip(t.keys, t.values):
+                if isinstance(k_, ast.Constant) and type(k_.value) is type(node.slice.value) and k_.value == node.slice.value and self._pure_entry(v_):
+                    self.changed = True
+                    return _loc(copy.deepcopy(v_), node)
+        return node
 
     def visit_BinOp(self, node: ast.BinOp) -> ast.AST:
         if isinstance(node.op, ast.Add):
@@ -272,6 +297,17 @@ class _Expr(ast.NodeTransformer):
 
     def visit_Call(self, node: ast.Call) -> ast.AST:
         self.generic_visit(node)
+        # E14 `f(*(a, b))` is `f(a, b)`
+        if any(isinstance(a, ast.Starred) and isinstance(a.value, (ast.Tuple, ast.List)) and not any(isinstance(y, ast.Starred) for y in a.value.elts)
+               for a in node.args):
+            flat: List[ast.expr] = []
+            for a in node.args:
+                if isinstance(a, ast.Starred) and isinstance(a.value, (ast.Tuple, ast.List)) and not any(isinstance(y, ast.Starred) for y in a.value.elts):
+                    flat.extend(a.value.elts)
+                else:
+                    flat.append(a)
+            node.args = flat
+            self.changed = True
         # E9 `map(f, it)` is `(f(x) for x in it)`
         if isinstance(node.func, ast.Name) and node.func.id == "map" and len(node.args) == 2 and not node.keywords and (
             _simple(node.args[0]) or isinstance(node.args[0], ast.Lambda)
@@ -737,7 +773,8 @@ class Canon:
     def function(self, fn: ast.AST) -> None:
         for _ in range(16):
             self.changed = False
-            ex = _Expr()
+            facts_e = NameFacts(fn)
+            ex = _Expr(getattr(self, "dict_tables", {}), set(facts_e.stores) | facts_e.special)
             for field_ in ("body",):
                 body = getattr(fn, field_)
                 setattr(fn, field_, [ex.visit(s) for s in body])
@@ -860,6 +897,10 @@ class Canon:
 
         def table_item(x: ast.expr, depth: int = 0) -> bool:
             # rows may hold tuples of their own (`(str, ("str", "string"))`)
+            if depth >= 1 and isinstance(x, ast.Lambda):
+                # a function written in the row: its free names are module constants (or builtins)
+                bound = {a.arg for a in x.args.args}
+                return all(n.id in bound or counts.get(n.id, 0) <= 1 for n in ast.walk(x.body) if isinstance(n, ast.Name))
             return const_like(x) or (isinstance(x, (ast.Tuple, ast.List)) and depth < 3 and all(table_item(y, depth + 1) for y in x.elts))  # noqa: PLR2004
 
         for st in getattr(tree, "body", []):
@@ -1027,6 +1068,15 @@ class Canon:
         """A rewrite of `s` (and of `consumed` following statements), or None."""
         if isinstance(s, JUMPS) and rest:
             return [s], len(rest)  # unreachable statements
+        if isinstance(s, ast.Expr) and isinstance(s.value, ast.YieldFrom) and self._chained_generator(s.value.value) is not None:
+            # S42 `yield from chain.from_iterable(E for a in A for b in B)`  ->  `for a in A: for b in B: yield from E`
+            g42 = self._chained_generator(s.value.value)
+            inner42: List[ast.stmt] = [_loc(ast.Expr(value=_loc(ast.YieldFrom(value=g42.elt), s)), s)]
+            for gen in reversed(g42.generators):
+                for cond in reversed(gen.ifs):
+                    inner42 = [_loc(ast.If(test=cond, body=inner42, orelse=[]), s)]
+                inner42 = [_loc(ast.For(target=_store(gen.target), iter=gen.iter, body=inner42, orelse=[], type_comment=None), s)]
+            return inner42, 0
         if isinstance(s, ast.Expr) and isinstance(s.value, ast.YieldFrom):
             # S35 `yield from E`  ->  `for v in E: yield v`   (no caller of this package sends into its generators)
             facts = NameFacts(self.fn)
@@ -1056,6 +1106,26 @@ class Canon:
         r37 = self._dict_dispatch(s, rest)
         if r37 is not None:
             return r37
+        if (isinstance(s, ast.Try) and s.handlers and not s.orelse and not s.finalbody and all(
+                h.type is not None and h.name is None and all(isinstance(b, ast.Pass) for b in h.body) for h in s.handlers)):
+            # S41 `try: B` / `except E: pass`  ->  `with suppress(E): B`
+            types: List[ast.expr] = []
+            for h in s.handlers:
+                types.extend(h.type.elts if isinstance(h.type, ast.Tuple) else [h.type])  # type: ignore[union-attr]
+            call = _loc(ast.Call(func=ast.Name(id="suppress", ctx=ast.Load()), args=types, keywords=[]), s)
+            return [_loc(ast.With(items=[ast.withitem(context_expr=call, optional_vars=None)], body=s.body, type_comment=None), s)], 0
+        if (isinstance(s, ast.Assign) and _plain_target(s) is not None and isinstance(s.value, ast.Call) and not isinstance(s.value.func, ast.Call)
+                and _Expr._pure_entry(s.value) and not _simple(s.value) and rest):
+            # S43 a getter built from constants and bound to a local that is only ever called: `show = attrgetter("obj")` ;
+            #     `(show(m) for m in it)`  ->  `(attrgetter("obj")(m) for m in it)`  (E6 then writes `m.obj`)
+            x43 = _plain_target(s)
+            facts43 = NameFacts(self.fn)
+            if facts43.stores.get(x43, 0) == 1 and x43 not in facts43.special:
+                loads43 = [n for st in rest for n in ast.walk(st) if isinstance(n, ast.Name) and n.id == x43 and isinstance(n.ctx, ast.Load)]
+                called43 = [n for st in rest for n in ast.walk(st) if isinstance(n, ast.Call) and isinstance(n.func, ast.Name) and n.func.id == x43]
+                total43 = sum(1 for n in ast.walk(self.fn) if isinstance(n, ast.Name) and n.id == x43 and isinstance(n.ctx, ast.Load))
+                if loads43 and len(loads43) == len(called43) == total43:
+                    return [_Subst(x43, s.value).visit(st) for st in rest], len(rest)
         r40 = self._table_rows(s)
         if r40 is not None:
             return r40, 0
@@ -1854,6 +1924,21 @@ class Canon:
             out = chain
         return out + tail, consumed
 
+    @staticmethod
+    def _chained_generator(e: ast.expr) -> Optional[ast.GeneratorExp]:
+        """`chain.from_iterable(<generator expression>)` (also `itertools.chain.from_iterable`), synchronous generators only."""
+        if not (isinstance(e, ast.Call) and isinstance(e.func, ast.Attribute) and e.func.attr == "from_iterable" and len(e.args) == 1
+                and not e.keywords and isinstance(e.args[0], ast.GeneratorExp)):
+            return None
+        base = e.func.value
+        if not ((isinstance(base, ast.Name) and base.id == "chain") or (
+                isinstance(base, ast.Attribute) and base.attr == "chain" and isinstance(base.value, ast.Name) and base.value.id == "itertools")):
+            return None
+        g = e.args[0]
+        if any(gen.is_async for gen in g.generators):
+            return None
+        return g
+
     # -- S40 the rows of a keyed table
     def _table_rows(self, s: ast.stmt) -> Optional[List[ast.stmt]]:
         """`if k in TABLE: for row in TABLE[k]: B` [else: E]  ->  `if k == K1: for row in V1: B` elif ... [else: E]
@@ -2108,7 +2193,8 @@ class Canon:
         if isinstance(s.target, ast.Tuple) and all(isinstance(t, ast.Name) for t in s.target.elts):
             # `for a, b in ((1, 2), (3, 4)): S(a, b)`
             names = [t.id for t in s.target.elts]  # type: ignore[attr-defined]
-            if not all(isinstance(e, (ast.Tuple, ast.List)) and len(e.elts) == len(names) and all(_simple(y) for y in e.elts) for e in it.elts):
+            if not all(isinstance(e, (ast.Tuple, ast.List)) and len(e.elts) == len(names) and all(_simple(y) or isinstance(y, ast.Lambda) for y in e.elts)
+                       for e in it.elts):
                 return None
             facts = NameFacts(self.fn)
             if len(set(names)) != len(names):
@@ -2126,11 +2212,16 @@ class Canon:
                 return None
             out2: List[ast.stmt] = []
             for e in it.elts:
-                for b in body:
-                    c = copy.deepcopy(b)
-                    for x, v in zip(names, e.elts):  # type: ignore[attr-defined]
-                        c = _Subst(x, v).visit(c)
-                    out2.append(c)
+                row = [copy.deepcopy(b) for b in body]
+                for x, v in zip(names, e.elts):  # type: ignore[attr-defined]
+                    if isinstance(v, ast.Lambda):
+                        applied = self._apply_entry(row, x, v)  # (the row's function, called where the name was)
+                        if applied is None:
+                            return None
+                        row = applied
+                    else:
+                        row = [_Subst(x, v).visit(c) for c in row]
+                out2.extend(row)
             return out2
         if not isinstance(s.target, ast.Name) or not all(_simple(e) for e in it.elts):
             return None
